@@ -10,7 +10,7 @@ DESIGN_REF = "DESIGN.md §9 C03, §12.C03"
 COQ_TARGETS = ["Properties/C03", "Pins/C03"]
 THEOREMS = [("PdfV.Properties.C03", n) for n in
             ["C03_token_regular", "C03_token_name", "C03_integer", "C03_real", "C03_name", "C03_string", "C03_hexstring",
-             "C03_value", "C03_value_bytes", "C03_sequence", "C03_indirect", "C03_name_not_utf8_refuted", "C03_nonvacuous"]]
+             "C03_value", "C03_value_bytes", "C03_sequence", "C03_indirect", "C03_stream", "C03_indirect_stream", "C03_name_not_utf8_refuted", "C03_nonvacuous"]]
 ANCHORS = ["lexer/", "parser/", "enc.rs:decode_nibble"]
 MODES = ["lex", "strlex", "hexlex", "parse", "parse_seq", "parse_indirect"]
 TRUSTED_BASE = ["coqc 8.16.1 kernel (vm_compute for table lemmas)", "gen/extract_syn.py (lexer/parser tables from the Rust source)",
